@@ -45,6 +45,21 @@ func AllAtoms() []*regexref.Atom {
 	for _, c := range regexref.ASCIIClassNames {
 		out = append(out, regexref.ClassAtom(c))
 	}
+	// The categories emerge backs with ASCII tables (every other category is documented as not included):
+	// both polarities, outside and inside brackets.
+	for _, u := range []struct {
+		name string
+		set  regexref.CharSet
+	}{
+		{"Letter", regexref.NewSet(regexref.Range{Lo: 'A', Hi: 'Z'}, regexref.Range{Lo: 'a', Hi: 'z'})},
+		{"L", regexref.NewSet(regexref.Range{Lo: 'A', Hi: 'Z'}, regexref.Range{Lo: 'a', Hi: 'z'})},
+		{"Lu", regexref.NewSet(regexref.Range{Lo: 'A', Hi: 'Z'})},
+		{"Ll", regexref.NewSet(regexref.Range{Lo: 'a', Hi: 'z'})},
+	} {
+		pos := &regexref.Atom{Text: `\p{` + u.name + `}`, Set: u.set}
+		neg := &regexref.Atom{Text: `\P{` + u.name + `}`, Set: u.set.NegASCII()}
+		out = append(out, pos, neg, regexref.GroupAtom(false, pos, L('0')), regexref.GroupAtom(false, neg), regexref.GroupAtom(true, pos), regexref.GroupAtom(true, neg, L('0')))
+	}
 	a, b, c := L('a'), L('b'), L('c')
 	G, R, C := regexref.GroupAtom, regexref.RangeAtom, regexref.ClassAtom
 	out = append(out,
